@@ -109,6 +109,11 @@ open Lean YV YV.Y YV.T YV.SC YV.D YV.E YV.Drv YV.Drv.T YV.Drv.S
 /-- the tamper table: one leaf `x` of the given type, the document {"x": <literal>} -/
 def handleFuzz (j : Json) : List (String × Json) :=
   if jstr j "mode" = "tamper2" then handleTamper2 j
+  else if jstr j "mode" = "trail" then
+    -- a JSON text is one value, with white space around it and nothing else
+    let ok := (jstr j "tail").toList.all fun c => c = ' ' || c = '\t' || c = '\n' || c = '\r'
+    let out := if ok then "trail:ok" else "trail:err"
+    [("m", out), ("s", out)]
   else if jstr j "mode" ≠ "tamper" then [("m", "total"), ("s", "total")]
   else
     let base := jstr j "type"
